@@ -143,10 +143,18 @@ type modelCtx struct {
 	Bare  bool     `json:"bare"`
 }
 
+// chains: contexts of level "chain" (repeated without delimiters), judged by stack growth, not by the depth limit
+var chains []pump
+
 func addModelPumps(cs []modelCtx) {
 	for _, c := range cs {
 		c := c
 		pre, post := strings.Join(c.Pre, " ")+" ", " "+strings.Join(c.Post, " ")
+		if c.Level == "chain" {
+			chains = append(chains, pump{Name: "model:" + c.Name, Tokens: len(c.Pre) + len(c.Post),
+				Build: func(d int) string { return "SELECT " + rep(pre, d) + "a" + rep(post, d) + " FROM t" }})
+			continue
+		}
 		build := func(d int) string { return "SELECT " + rep(pre, d) + "a" + rep(post, d) + " FROM t" }
 		if c.Level == "statement" {
 			build = func(d int) string { return rep(pre, d) + "SELECT (1)" + rep(post, d) }
@@ -180,6 +188,7 @@ type outcome struct {
 	Msg      string   `json:"msg"`
 	Ms       int64    `json:"ms"`
 	Frames   []string `json:"frames,omitempty"`
+	StackKB  uint64   `json:"stack_kb,omitempty"` // mode "chain": stack memory in use right after the parse
 }
 
 // ---------------------------------------------------------------------------------------------------------
@@ -223,6 +232,13 @@ func child(args []string) {
 			p = &pumps[i]
 		}
 	}
+	if mode == "chain" {
+		for i := range chains {
+			if chains[i].Name == name {
+				p = &chains[i]
+			}
+		}
+	}
 	if p == nil {
 		core.Fatalf("no pump %q", name)
 	}
@@ -248,6 +264,12 @@ func child(args []string) {
 			return
 		}
 		tree, err := gosqlx.Parse(sql)
+		if mode == "chain" {
+			// the goroutine's stack has grown to what the parse needed and is not shrunk before the next collection
+			var m runtime.MemStats
+			runtime.ReadMemStats(&m)
+			o.StackKB = m.StackInuse >> 10
+		}
 		o.Accepted = err == nil
 		if err != nil {
 			o.Code, o.Msg = ops.Err(err).Code, firstN(err.Error(), 160)
@@ -624,6 +646,7 @@ func nesting(tier string) {
 	if usable < 20 {
 		core.Fatalf("only %d pumps are accepted by the parser at small depths", usable)
 	}
+	chainStacks()
 	depthGuard(tier)
 	// recorded stacks must be paths of the extracted call graph
 	if len(traceLines) > 0 {
